@@ -40,6 +40,7 @@ func vfUFOff(name string)
 func vfCalls(name string) int
 func vfWatch(name string)
 func vfArgU64(name string, i int) uint64
+func vfWitness0() uint64
 `, pkg)
 }
 
@@ -130,6 +131,12 @@ func vfUFOff(name string)      {}
 func vfCalls(name string) int  { return 0 }
 func vfWatch(name string)      {}
 func vfArgU64(name string, i int) uint64 { return 0 }
+func vfWitness0() uint64 {
+	if len(vfWitness) > 0 {
+		return vfWitness[0]
+	}
+	return 0
+}
 func vfSameObj(a, b []byte) bool {
 	if cap(a) == 0 || cap(b) == 0 {
 		return false
